@@ -191,16 +191,16 @@ section Heads
 
 theorem Corr_invoke {w : World U} {σ : Sig U} (hc : Corr w σ) (sid : Nat) (m : Method) (slot : Nat) :
     (w.invoke sid m slot).2 = σ.ds.headD [] ∧ Corr (w.invoke sid m slot).1 { σ with ds := σ.ds.tail } := by
-  obtain ⟨h1, h2, h3⟩ := World.invoke_streams w sid m slot
+  obtain ⟨h1, h2, h3⟩ := World.invoke_streams_u w sid m slot
   exact ⟨by rw [h1, hc.1], by rw [h2, hc.1], by rw [h3, hc.2]⟩
 
 theorem headUtility_corr {w : World U} {σ : Sig U} (hc : Corr w σ) (sid inj : Nat) (h : Bool) :
     (w.headUtility sid inj h).2 = (σ.headVal h).1 ∧ Corr (w.headUtility sid inj h).1 (σ.headVal h).2 := by
   unfold World.headUtility Sig.headVal
   cases h with
-  | false => simp; split <;> simpa using hc
+  | false => simpa using hc
   | true =>
-    simp only [Bool.true_or, if_true]
+    simp only [if_true]
     have hc' : Corr (w.logRec (.method sid .utility)) σ := by simpa using hc
     obtain ⟨e1, e2⟩ := Corr_invoke hc' sid .utility inj
     generalize (w.logRec (.method sid .utility)).invoke sid .utility inj = r at e1 e2
@@ -210,6 +210,17 @@ theorem headUtility_corr {w : World U} {σ : Sig U} (hc : Corr w σ) (sid inj : 
     split <;> rename_i heq
     · exact ⟨(congrArg (fun o => Option.getD o _) heq).symm, e2⟩
     · exact ⟨(congrArg (fun o => Option.getD o _) heq).symm, by simpa using e2⟩
+
+theorem headUtilityWrap_corr {w : World U} {σ : Sig U} (hc : Corr w σ) (sid inj : Nat) (h : Bool) :
+    (w.headUtilityWrap sid inj h).2 = (σ.headVal h).1 ∧ Corr (w.headUtilityWrap sid inj h).1 (σ.headVal h).2 := by
+  cases h with
+  | true =>
+    have := headUtility_corr hc sid inj true
+    simpa only [World.headUtilityWrap, if_true] using this
+  | false =>
+    simp only [World.headUtilityWrap, Sig.headVal, Bool.false_eq_true, if_false]
+    refine ⟨trivial, ?_⟩
+    split <;> simpa using hc
 
 theorem headRank_corr {w : World U} {σ : Sig U} (hc : Corr w σ) (sid inj : Nat) (h : Bool) :
     (w.headRank sid inj h).2 = (σ.headRk h).1 ∧ Corr (w.headRank sid inj h).1 (σ.headRk h).2 := by
@@ -344,8 +355,8 @@ theorem Node.reportRandomize_corr : (n : Node) → (w : World U) → (σ : Sig U
     exact headUtility_corr hc id inj true
   | .compo id rid inj h st a r q m s, w, σ, hc => by
     simp only [Node.reportRandomize, Node.randomizeSpec]
-    have h1 := headUtility_corr hc id inj h
-    generalize w.headUtility id inj h = r1 at h1 ⊢
+    have h1 := headUtilityWrap_corr hc id inj h
+    generalize w.headUtilityWrap id inj h = r1 at h1 ⊢
     generalize σ.headVal h = r1' at h1 ⊢
     obtain ⟨w1, hu⟩ := r1; obtain ⟨hu', σ1⟩ := r1'
     obtain ⟨e1, hc1⟩ := h1
@@ -375,8 +386,8 @@ theorem Node.reportRandomize_corr : (n : Node) → (w : World U) → (σ : Sig U
     exact ⟨rfl, hc4⟩
   | .ortho id rid inj h s, w, σ, hc => by
     simp only [Node.reportRandomize, Node.randomizeSpec]
-    have h1 := headUtility_corr hc id inj h
-    generalize w.headUtility id inj h = r1 at h1 ⊢
+    have h1 := headUtilityWrap_corr hc id inj h
+    generalize w.headUtilityWrap id inj h = r1 at h1 ⊢
     generalize σ.headVal h = r1' at h1 ⊢
     obtain ⟨w1, hu⟩ := r1; obtain ⟨hu', σ1⟩ := r1'
     obtain ⟨e1, hc1⟩ := h1
